@@ -390,6 +390,7 @@ func (n *jnode) gParsed(sink *scalarSink) string {
 		sink.add(json.Number(n.s))
 		return "(RS (VNum " + gStr(n.s) + "))"
 	case 'b':
+		sink.add(n.b)
 		if n.b {
 			return "(RS (VBool true))"
 		}
